@@ -58,7 +58,8 @@ def padHex (width : Nat) (n : Nat) : String :=
   let ds := Nat.toDigits 16 n
   String.ofList (List.replicate (width - ds.length) '0' ++ ds)
 
-def showF32 (x : Float32) : String := "f32:" ++ padHex 8 x.toBits.toNat
+/-- bit pattern; every NaN (whatever its sign / payload) is the one token `f32:nan`, on both sides -/
+def showF32 (x : Float32) : String := if x != x then "f32:nan" else "f32:" ++ padHex 8 x.toBits.toNat
 def showF64 (x : Float) : String := "f64:" ++ padHex 16 x.toBits.toNat
 
 def showBool (b : Bool) : String := if b then "1" else "0"
